@@ -16,28 +16,38 @@ c = subprocess.run([V + "/bin/lowcheck", "-prop", "all"], env=dict(ENV, VERIF_DI
 bad = [l for l in (c.stdout + c.stderr).splitlines() if l.startswith(("VIOLATED", "UNDECIDED", "VIOLATION", "CHECKER-BROKEN", "panic"))]
 print("unchanged tree: exit", c.returncode, "-", "SILENT" if c.returncode == 0 and not bad else "ALARM")
 for l in bad[:20]: print("   ", l[:300])
-# rename-all variant: every parameter, local, captured variable and unexported field renamed (tools/renameall): silent
+# mechanical behaviour-preserving variants of the whole tree, each silent:
+#  renameall        every parameter, local, captured variable and unexported field renamed
+#  swapops          operands of commutative operators / mirrored comparisons swapped
+#  swapops negif    if c {A} else {B} -> if !(c) {B} else {A}
+#  swapops unrange  for i, v := range xs -> three-clause index loop
+#  swapops torange  for i := 0; i < len(xs); i++ -> for i := range xs
 import shutil, tempfile
-rb = subprocess.run(["go", "build", "-o", V + "/bin/renameall", "."], cwd=V + "/tools/renameall", env=ENV, capture_output=True, text=True)
 rn_bad = []
-if rb.returncode != 0:
-    rn_bad = ["renameall does not build: " + rb.stderr[-200:]]
-else:
-    tmp = tempfile.mkdtemp(prefix="lowrename_")
+def variant(label, tooldir, binname, extra):
+    rb = subprocess.run(["go", "build", "-o", V + "/bin/" + binname, "."], cwd=V + "/tools/" + tooldir, env=ENV, capture_output=True, text=True)
+    if rb.returncode != 0:
+        rn_bad.append(label + ": tool does not build: " + rb.stderr[-200:]); print(label, "TOOL BUILD FAILED"); return
+    tmp = tempfile.mkdtemp(prefix="lowvariant_")
     try:
         shutil.copytree("/repo", tmp + "/repo", ignore=shutil.ignore_patterns(".git"))
-        rr = subprocess.run([V + "/bin/renameall", tmp + "/repo"], env=ENV, capture_output=True, text=True)
+        rr = subprocess.run([V + "/bin/" + binname, tmp + "/repo"] + extra, env=ENV, capture_output=True, text=True)
         bb = subprocess.run(["go", "build", "./..."], cwd=tmp + "/repo", env=ENV, capture_output=True, text=True)
         if rr.returncode != 0 or bb.returncode != 0:
-            rn_bad = ["renamed tree does not build: " + (rr.stderr + bb.stderr)[-300:]]
-        else:
-            os.makedirs(tmp + "/ev", exist_ok=True)
-            cc = subprocess.run([V + "/bin/lowcheck", "-repo", tmp + "/repo", "-prop", "all", "-noselftest"], env=dict(ENV, VERIF_DIR=tmp + "/ev"), capture_output=True, text=True)
-            rn_bad = [l[:260] for l in (cc.stdout + cc.stderr).splitlines() if l.startswith(("VIOLATED", "UNDECIDED", "panic"))]
-        print("rename-all variant (%s):" % rr.stdout.strip(), "SILENT" if not rn_bad else "ALARM")
-        for l in rn_bad[:10]: print("   ", l)
+            rn_bad.append(label + ": variant tree does not build: " + (rr.stderr + bb.stderr)[-300:]); print(label, "VARIANT BUILD FAILED"); return
+        os.makedirs(tmp + "/ev", exist_ok=True)
+        cc = subprocess.run([V + "/bin/lowcheck", "-repo", tmp + "/repo", "-prop", "all", "-noselftest"], env=dict(ENV, VERIF_DIR=tmp + "/ev"), capture_output=True, text=True)
+        b2 = [l[:260] for l in (cc.stdout + cc.stderr).splitlines() if l.startswith(("VIOLATED", "UNDECIDED", "panic"))]
+        print("%s variant (%s):" % (label, rr.stdout.strip()), "SILENT" if not b2 else "ALARM")
+        for l in b2[:10]: print("   ", l)
+        rn_bad.extend(label + ": " + l for l in b2)
     finally:
         shutil.rmtree(tmp, ignore_errors=True)
+variant("rename-all", "renameall", "renameall", [])
+variant("operand-swap", "swapops", "swapops", [])
+variant("negated-if", "swapops", "swapops", ["negif"])
+variant("un-range", "swapops", "swapops", ["unrange"])
+variant("to-range", "swapops", "swapops", ["torange"])
 jobs = int(os.environ.get("JOBS", "10"))
 sd = sorted(glob.glob(V + "/seeded/C*-seed*"))
 bd = sorted(glob.glob(V + "/benign/C*-r*"))
